@@ -14,14 +14,15 @@ META = {
     "explanation": "Effect inventory over the resolved MIR of every body of the library and the binary crate: "
                    "R18.inventory (write-capable callees = exactly one fs::write whose path operand is the literal "
                    "solstat_report.md), R18.once (that call lies on every entry-to-return path of generate_report, outside "
-                   "any loop, and generate_report lies on every path through main after all analysis calls), "
+                   "any loop, generate_report lies on every path through main after all analysis calls, and no diverging call (process::exit, panic) is reachable in main "
+                   "between the first analysis call and generate_report), "
                    "R18.readonly (analysis code uses only read_dir / read_to_string / is_dir and pure path accessors), "
                    "R18.name (the report name does not end in .sol, so an old report is never an input: with C16).",
     "assumptions": [
         "std::fs::write creates or truncates the file (std contract); not decided here",
         "dependencies (clap, toml, regex, solang_parser) perform no file-system writes (not analysed)",
     ],
-    "floors": {"R18.inventory": 8, "R18.once": 3, "R18.stale": 1},
+    "floors": {"R18.inventory": 8, "R18.once": 4, "R18.stale": 1},
     "trusted_base": [],
 }
 
@@ -166,6 +167,25 @@ def run(ctx, crate):
                 ok = len(an) >= 3 and all(main.dominates(c.bb, calls[0].bb) for c in an)
                 obs.append(Ob("R18.once", "main", "analysis precedes the write", ok, site=calls[0].where,
                               expected="three analyze_dir calls dominating generate_report", found=[c.path for c in an]))
+                # once analysis has begun, nothing in main ends the run before the report is written: an early exit would leave the report of the
+                # previous run in place as if it belonged to this one
+                first = [c for c in an if not any(o is not c and main.dominates(o.bb, c.bb) for o in an)]
+                outs = []
+                if first:
+                    seen, st = set(), [first[0].bb]
+                    while st:
+                        x = st.pop()
+                        if x in seen or x == calls[0].bb:
+                            continue
+                        seen.add(x)
+                        t = main.blocks[x]["term"]
+                        if t["k"] == "call" and t.get("t") is None:
+                            outs.append(S.Site(main, x, t))
+                        st.extend(y for (y, _) in main.succ[x])
+                obs.append(Ob("R18.once", "main", "no way out of main between the start of analysis and the report", not outs and bool(first),
+                              site=outs[0].where if outs else calls[0].where, expected="no diverging call (process::exit, panic) reachable after the first analyze_dir without passing generate_report",
+                              found=["%s at line %d under %s" % (core.short_fn(o.path), o.line, S.guard_str(o.guard)[-120:]) for o in outs] or "none",
+                              example="a tree with a finding of the guarded kind and an older solstat_report.md in the working directory"))
     # analysis code is read-only
     roots = []
     for suf in ("optimizations::analyze_dir", "vulnerabilities::analyze_dir", "qa::analyze_dir"):
